@@ -19,7 +19,24 @@ def sels_for(nf, names):
             {"t": "list", "v": list(range(nf))}, {"t": "list", "v": [nf - 1]}]
     if nf >= 3:
         out += [{"t": "list", "v": [0, nf - 1]}, {"t": "slice", "v": [1, -1, None]}, {"t": "ndarray", "v": [1, 2]}]
-    return [s for s in out if selectors.must_honour_field(s, nf, names)]
+    out = [dict(s, promised=True) for s in out if selectors.must_honour_field(s, nf, names)]
+    # further selections numpy gives a meaning to: index lists out of file order, with repeats, with negative entries,
+    # names out of file order.  A refusal (exception) is accepted for these; an answer must be the stored data of
+    # exactly the listed components in the listed order
+    nl = list(names)
+    extra = []
+    if nf >= 2:
+        extra += [{"t": "list", "v": [nf - 1, 0]}, {"t": "list", "v": [0, 0]}, {"t": "list", "v": [-1, -2]},
+                  {"t": "names", "v": nl[::-1]}, {"t": "list", "v": [-2, -1]}]
+    if nf >= 3:
+        extra += [{"t": "list", "v": [1, 1, nf - 1]}, {"t": "list", "v": [2, 0, 1]}, {"t": "ndarray", "v": [2, 0, 1]},
+                  {"t": "list", "v": [-3, -2, -1]}, {"t": "names", "v": [nl[1], nl[0], nl[2]]}]
+    if nf >= 4:
+        extra += [{"t": "list", "v": [0, 2, 1, 3]}, {"t": "list", "v": [1, 3, 3, 3][: nf]}, {"t": "names", "v": [nl[0], nl[2], nl[1], nl[3]]}]
+    for s in extra:
+        if selectors.meaning(s, nf, names) is not None and not selectors.must_honour_field(s, nf, names):
+            out.append(dict(s, promised=False))
+    return out
 
 
 def key(a):
@@ -41,6 +58,7 @@ def run_spec(ctx, rep, spec, model, orders, real_pool=False, only=None):
         nb = len(spec["levels"][lv])
         nfiles = len({f for f, _ in spec["layout"][lv]})
         for fsel in sels_for(nf, names):
+            promised = fsel.pop("promised", True)
             single, fidx = selectors.meaning(fsel, nf, names)
             want = sorted(key(truth[(lv, b)][..., fidx[0]] if single else truth[(lv, b)][..., fidx]) for b in range(nb))
             for oi, order in enumerate(orders):
@@ -61,8 +79,13 @@ def run_spec(ctx, rep, spec, model, orders, real_pool=False, only=None):
                     rep.fail("iteration over a level did not stop within 120 s", case)
                     continue
                 except Exception as e:
+                    if not promised:
+                        rep.count("unpromised-form-refused")
+                        continue
                     rep.fail(f"iteration over a level raised {type(e).__name__}: {e}", case)
                     continue
+                if not promised:
+                    rep.count("unpromised-form-answered")
                 got = sorted(key(a) for a in got_list)
                 if got != want:
                     rep.fail(f"iteration yielded {len(got)} boxes that are not the {len(want)} stored boxes, each once",
